@@ -32,8 +32,10 @@ class Layer(object):
         self.kill = None         # (node, index, mode)
         self.dead = set()
         self.killed_at = None
+        self.pid = os.getpid()
 
     def reset(self):
+        self.pid = os.getpid()
         self.count = {}
         self.log = {}
         self.kill = None
@@ -48,6 +50,8 @@ class Layer(object):
         """Called before a primitive is performed. Returns 'torn' if the primitive
         must be performed partially and then die, None to perform it normally.
         Raises KillNow for a dead node."""
+        if os.getpid() != self.pid:
+            return None             # forked dump child: never interfere, it must _exit inside the library
         node = core.CLOCK.active
         if node in self.dead:
             raise KillNow()
